@@ -259,6 +259,8 @@ def run(ctx):
             m = comparator_matrix(ctx, facts, roles, f, s2n, op, cfg)
             mats[op] = m
         # ---------------- K3
+        from . import strnum as _SN
+        _SN.container_elements_converted(ctx, facts, [f_.key for f_ in comparators.values()], cfg, "K3.container-through-string-form")
         tps = to_primitive_number(facts, roles, comparators)
         ctx.need(tps, "number-hint conversion (&Value → Option<f64> without local calls, reachable from the comparators) not found")
         ctx.check(len(tps) == 1, "K3.to-primitive-shared", "one number-hint conversion feeds the comparisons (%s)" % cfg,
